@@ -12,6 +12,12 @@ let handle (x : sexp) : Stdlib.String.t =
       (match best_layout evs_dummy big_fuel big_fuel (boolv smart) (zint w) (zint rw) (doc_of d) with
        | None -> "FUEL"
        | Some out -> "S " ^ stream_out out ^ " | R " ^ str_out (default_render is_space out))
+  | L [A "dispatch"; L mro; L acc; L ops] ->
+      let mt = table_of mro and at = table_of acc in
+      let mrof c = let ci = int_of_nat c in
+        List.map nat_of_int (try Hashtbl.find mt ci with Not_found -> [ci]) in
+      let accf q c = (try List.mem (int_of_nat c) (Hashtbl.find at (int_of_nat q)) with Not_found -> false) in
+      String.concat " " (List.map dobs_out (drun mrof accf dinit (List.map dop_of ops)))
   | L [A "cfg"; L d0; L h] ->
       let obs = run_cfg entry_points set_default_plumbing (List.map cop_of h) (env_of d0) in
       String.concat " ; " (List.map (fun (d, eff) ->
